@@ -120,6 +120,34 @@ def rf16b(run):
         if not ok:
             run.violation(rule, re_, 'field %s' % fld, '_MIR_duplicate_func_insns saves %s (from %s) but _MIR_restore_func_insns never '
                           'reads it back' % (fld, src_), line=re_.line)
+    # the registers added by the generator are removed through the variables popped from func->vars: the popped element must be
+    # what locates the descriptor that is deleted from the register tables
+    pops = [n for n in re_.walk() if n['k'] == 'CallExpr' and (n.get('callee') or '').startswith('VARR_') and n['callee'].endswith('pop')
+            and F.src(F.call_args(n)[0]).endswith('->vars')]
+    if len(pops) != 1:
+        run.analysis_broken(rule, '_MIR_restore_func_insns: pop of func->vars not recognised')
+    else:
+        par = re_.parent_of(pops[0])
+        while par is not None and par['k'] in F.CASTS:
+            par = re_.parent_of(par)
+        popped = None
+        if par is not None and par['k'] == 'DeclStmt':
+            for d in par['decls']:
+                if d.get('init') is not None and any(x is pops[0] for x in F.walk(d['init'])):
+                    popped = d['n']
+        elif par is not None and par['k'] == 'BinaryOperator' and par['op'] == '=':
+            popped = F.src(F.strip(par['c'][0]))
+        lookups = [n for n in re_.walk() if n['k'] == 'CallExpr' and (n.get('callee') or '').startswith('find_rd_by_')]
+        uses = popped is not None and any(any(x['k'] == 'DeclRefExpr' and x['n'] == popped for a in F.call_args(l) for x in F.walk(a)) for l in lookups)
+        dels = [n for n in re_.walk() if n['k'] == 'CallExpr' and (n.get('callee') or '').startswith('HTAB_') and
+                any(F.strip(a)['k'] == 'DeclRefExpr' and F.strip(a)['n'] == 'HTAB_DELETE' for a in F.call_args(n))]
+        ok = uses and len(dels) >= 2
+        run.ob(rule, ('popped-var-locates-descriptor',), ok, {'popped into': popped, 'look-ups': [F.src(l)[:60] for l in lookups],
+                                                              'table deletions': len(dels)})
+        if not ok:
+            run.violation(rule, re_, 'descriptor of the popped var', 'the variable popped from func->vars (%s) is not what locates the '
+                          'register descriptor removed from the tables: a function with global vars would lose the wrong registers'
+                          % (popped or 'discarded'), line=pops[0]['l'])
     # the lowered copy is released and the list heads swapped back
     ok = any(n['k'] == 'CallExpr' and n.get('callee') == 'MIR_remove_insn' for n in re_.walk())
     run.ob(rule, ('copy-released',), ok)
@@ -347,6 +375,18 @@ def rf16f(run):
         if not okk:
             run.violation(rule, f, 'curr_item->addr of kind %d' % i, 'the placement branch for [%s] does not record curr_item->addr = addr before '
                           'advancing' % t1[:60], line=b2['l'])
+        # the bytes of the item are initialised here (a copy/fill of exactly the advance) or their address is recorded for
+        # initialisation at link time (load_addr = addr)
+        fills = [x for x in F.walk(b2) if x['k'] == 'CallExpr' and x.get('callee') in ('memset', 'memmove', 'memcpy')]
+        deferred = [x for x in F.walk(b2) if x['k'] == 'BinaryOperator' and x['op'] == '=' and F.src(F.strip(x['c'][0])).endswith('->load_addr')
+                    and F.src(F.strip(x['c'][1])) == 'addr']
+        okinit = bool(fills) or bool(deferred)
+        run.ob(rule, ('initialised', i), okinit, {'kind': t1[:60], 'filled by': [F.src(x)[:50] for x in fills],
+                                                 'deferred via load_addr': bool(deferred)})
+        if not okinit:
+            run.violation(rule, f, 'initialisation of kind %d' % i,
+                          'the placement branch for [%s] neither fills the item\'s bytes nor records load_addr: when the section memory is '
+                          'reused (module loaded again) the item keeps stale contents' % t1[:60], line=b2['l'])
         # copy length equals the advance
         for x in F.walk(b2):
             if x['k'] == 'CallExpr' and x.get('callee') in ('memset', 'memmove', 'memcpy'):
@@ -357,8 +397,123 @@ def rf16f(run):
                     run.violation(rule, f, 'copy length of kind %d' % i, '%s writes %s bytes at addr but the section advances by %s' %
                                   (x['callee'], ln, s2), line=x['l'])
     # the allocation uses the computed size
-    mall = [x for x in f.walk() if x['k'] == 'CallExpr' and x.get('callee') == 'MIR_malloc']
-    ok = len(mall) == 1 and F.src(F.strip(F.call_args(mall[0])[1])) == 'section_size'
+    mall = [x for x in f.walk() if x['k'] == 'CallExpr' and x.get('callee') in ('MIR_malloc', 'MIR_calloc')]
+    ok = len(mall) == 1 and any(F.src(F.strip(a)) == 'section_size' for a in F.call_args(mall[0])[1:])
     run.ob(rule, ('alloc-size',), ok)
     if not ok:
         run.violation(rule, f, 'section allocation', 'the section is not allocated with the computed section_size', line=f.line)
+
+
+# ---------------------------------------------------------------------------------------------
+# RF24 interned-key discipline of the item table
+# ---------------------------------------------------------------------------------------------
+INTERNING_CALLS = {'get_ctx_str', '_MIR_uniq_string', 'MIR_item_name', 'read_name'}
+# fields that hold context-interned strings (set only from get_ctx_str / an interned argument at item creation)
+INTERNED_FIELDS = {'import_id', 'export_id', 'forward_id', 'name', 's'}
+
+
+def _interned_expr(tu, f, e, depth=0, seen=None):
+    """is the expression provably a context-interned string?  returns (bool, reason)"""
+    e = F.strip(e)
+    k = e['k']
+    if k == 'CallExpr' and e.get('callee') in INTERNING_CALLS:
+        return True, 'result of %s' % e['callee']
+    if k == 'MemberExpr' and e['n'] in INTERNED_FIELDS:
+        base = F.strip(e['c'][0])
+        if e['n'] == 's':
+            # to_str (…).s / get_ctx_string (…).str.s
+            if base['k'] == 'CallExpr' and base.get('callee') in ('to_str',):
+                return True, 'string table entry'
+            if base['k'] == 'MemberExpr' and F.strip(base['c'][0])['k'] == 'CallExpr' and F.strip(base['c'][0]).get('callee') == 'get_ctx_string':
+                return True, 'interned string'
+            return False, 'field .s of %s' % F.src(base)
+        return True, 'item field %s' % e['n']
+    if F.const_value(e) == 0 or k == 'GNUNullExpr':
+        return True, 'NULL'
+    if k == 'CallExpr' and (e.get('callee') or '').startswith('VARR_') and (e['callee'].endswith('get') or e['callee'].endswith('last')
+                                                                          or e['callee'].endswith('pop')):
+        cont = F.src(F.call_args(e)[0])
+        pushes = []
+        for g in tu.func_list:
+            for c in g.walk():
+                if c['k'] == 'CallExpr' and (c.get('callee') or '').startswith('VARR_') and c['callee'].endswith('push') \
+                        and F.src(F.call_args(c)[0]) == cont:
+                    pushes.append((g, F.call_args(c)[1]))
+        if not pushes:
+            return False, 'container %s is never filled' % cont
+        for g, a in pushes:
+            r = _interned_expr(tu, g, a, depth + 1, seen)
+            if not r[0]:
+                return False, 'container %s receives %s in %s (%s)' % (cont, F.src(a)[:30], g.name, r[1])
+        return True, 'element of %s, which only receives interned strings' % cont
+    if k == 'ConditionalOperator':
+        a, b = _interned_expr(tu, f, e['c'][1], depth, seen), _interned_expr(tu, f, e['c'][2], depth, seen)
+        return (a[0] and b[0]), '%s / %s' % (a[1], b[1])
+    if k == 'DeclRefExpr' and e.get('dk') in ('local', 'param'):
+        seen = seen or set()
+        key = (f.name, e['n'])
+        if key in seen or depth > 3:
+            return True, 'cyclic'
+        seen = seen | {key}
+        defs = []
+        for n in f.walk():
+            if n['k'] == 'BinaryOperator' and n['op'] == '=' and F.src(F.strip(n['c'][0])) == e['n']:
+                defs.append(n['c'][1])
+            if n['k'] == 'DeclStmt':
+                for d in n['decls']:
+                    if d['n'] == e['n'] and d.get('init') is not None:
+                        defs.append(d['init'])
+        reasons = []
+        ok = True
+        if e.get('dk') == 'param':
+            # a parameter that is re-assigned from an interning call before use counts through its definitions;
+            # otherwise every caller must pass an interned string
+            idx = [i for i, p in enumerate(f.params) if p['n'] == e['n']]
+            if not defs and idx:
+                if not f.static:
+                    return False, 'parameter %s of the public function %s is a caller-owned string' % (e['n'], f.name)
+                callers = 0
+                for g in tu.func_list:
+                    for c in g.walk():
+                        if c['k'] == 'CallExpr' and c.get('callee') == f.name:
+                            callers += 1
+                            a = F.call_args(c)
+                            if idx[0] < len(a):
+                                r = _interned_expr(tu, g, a[idx[0]], depth + 1, seen)
+                                if not r[0]:
+                                    return False, 'caller %s passes %s (%s)' % (g.name, F.src(a[idx[0]])[:40], r[1])
+                if callers == 0:
+                    return False, 'parameter %s of an entry point (caller-owned string)' % e['n']
+                return True, 'every caller passes an interned string'
+        if not defs:
+            return False, 'no definition of %s found' % e['n']
+        for d in defs:
+            r = _interned_expr(tu, f, d, depth + 1, seen)
+            if not r[0]:
+                return False, '%s = %s (%s)' % (e['n'], F.src(d)[:50], r[1])
+            reasons.append(r[1])
+        return True, '; '.join(sorted(set(reasons)))
+    return False, 'expression %s' % F.src(e)[:50]
+
+
+def rf24(run):
+    rule = 'RF24'
+    run.rule(rule, 'the item table is keyed on the identity of context-interned name strings: every name passed to item_tab_find is an '
+                   'interned string (result of get_ctx_str/_MIR_uniq_string/MIR_item_name/read_name, a string-table entry, or a name '
+                   'field of an item), through local copies and — for parameters — at every caller')
+    tu = run.tu('mir')
+    n = 0
+    for f in tu.func_list:
+        for c in f.walk():
+            if c['k'] == 'CallExpr' and c.get('callee') == 'item_tab_find':
+                n += 1
+                arg = F.call_args(c)[1]
+                ok, why = _interned_expr(tu, f, arg)
+                run.ob(rule, (f.name, c['l']), ok, {'site': '%s:%d %s' % (f.relfile(), c['l'], f.name), 'key': F.src(arg)[:60],
+                                                    'interned because' if ok else 'NOT INTERNED': why})
+                if not ok:
+                    run.violation(rule, f, 'item_tab_find key %s' % F.src(arg)[:40],
+                                  '%s looks an item up by %s, which is not a context-interned string (%s); the table compares name '
+                                  'pointers, so the look-up misses an existing entry and a second entry shadows or loses the definition'
+                                  % (f.name, F.src(arg)[:40], why), line=c['l'])
+    return n
